@@ -12,15 +12,17 @@ EXHAUSTIVE = True
 NPROC = 8
 SHARDS = 8
 TASK_TIMEOUT = 180
-RULE = ("a scenario is a tiny world (1-3 samples, 3-8 biallelic SNVs, true haplotypes, error-free single and paired reads in a BAM "
-        "with read groups, reference FASTA, a variant file with sorted/unsorted/homozygous/missing GTs and optionally foreign "
-        "PS(+PQ)/HP phase, a phased VCF of the same sites with arbitrary - also interleaved - phase sets in PS or HP encoding) "
-        "plus a history of real commands, each run on the previous output: phase --tag PS/HP for a target-sample subset with the "
-        "BAM or with the phased VCF as only phase input, unphase; every phase step is run a second time with the other tag on the "
-        "same input. Histories: all op sequences up to length 3-4 emitted by TLC from VcfHistory, plus seeded random longer ones, "
-        "plus single steps with 1-7 interleaved phase sets in the phase-input VCF. Non-trivial = some phase step wrote >= 2 "
-        "heterozygous variants into one phase set for a sample that already carried phase information or whose GT was unsorted, "
-        "or reproduced a phase-input VCF with >= 2 sets")
+RULE = ("a scenario is a tiny world (1-3 samples, 3-8 biallelic sites: SNVs, insertions, deletions; true haplotypes, error-free single "
+        "and paired reads in a BAM with read groups, reference FASTA, a variant file with sorted/unsorted/homozygous/missing GTs and "
+        "optionally foreign PS(+PQ)/HP phase, optionally decorated with records no run supports - multi-ALT heterozygous records and "
+        "second records at a used position, phased by another tool for every sample -, a phased VCF of the same records with "
+        "arbitrary, also interleaved, phase sets in PS or HP encoding) plus a history of real commands, each run on the previous "
+        "output: phase --tag PS/HP [--only-snvs] for a target-sample subset with the BAM or with the phased VCF as only phase input, "
+        "unphase; every phase step is run a second time with the other tag on the same input. Histories: all op sequences over "
+        "{unphase, phase x tag x targets x only-snvs} emitted by TLC from VcfHistory (2 samples up to length 2-3, 1 sample up to "
+        "length 3-4), plus seeded random longer ones, plus single steps with 1-7 interleaved phase sets in the phase-input VCF. "
+        "Non-trivial = some phase step wrote >= 2 heterozygous variants into one phase set for a sample that already carried phase "
+        "information (possibly at a record the step skips) or whose GT was unsorted, or reproduced a phase-input VCF with >= 2 sets")
 ASSUMPTIONS = [
     "TLC; VcfModel.tla's decoders are the conventions (GT order = haplotype order with PS naming the set; k-th HP entry names the "
     "haplotype of the k-th GT allele), which are also what whatshap's own reader implements",
@@ -28,33 +30,54 @@ ASSUMPTIONS = [
     "components) recorded by a wrapper class in the driver; a statement exists where the site is in a component and the two "
     "super-read alleles are 0/1 and differ; set name = component + 1",
     "DecodesCleanly is not demanded when a non-target sample brought the other encoding along (mixture inherited from the input)",
-    "VcfReproduces is demanded for sets with >= 2 heterozygous variants shared by both files and at most 7 overlapping sets (14 pseudo reads)",
+    "VcfReproduces is demanded for sets with >= 2 heterozygous variants shared by both files at records the run supports and at most 7 overlapping sets (14 pseudo reads)",
+    "which records a run does not support (multi-ALT, second record at a position, indel under --only-snvs) is known from the construction "
+    "of the world; P has no statement there and NoStalePhase demands that the output has none either for target samples",
 ]
 
 
 # ==============================================================================================
 def design_mc(ctx):
     out = H.design_mc(ctx)
-    # negative control: the transcription of the pinned writer (Faithful = FALSE) must violate the invariants
-    cfg = tlc.write_cfg(os.path.join(ctx.workdir, "histneg.cfg"), spec="Spec",
-                        consts={"NS": 2, "Faithful": "FALSE", "Depth": 0}, subst={"Inits": "Small"},
-                        view="NoHist", invariants=["RoundTrip", "NoStalePhase", "DecodesCleanly", "TagEquivalence"])
-    r = tlc.model_check("MC_VcfHistory", cfg=cfg, workers=4, timeout=600)
-    ctx.notes["negative_control_code_shaped_writer_rejected_by_tlc"] = (not r["ok"]) and "is violated" in r["out"]
-    if r["ok"]:
-        raise tlc.TlcError("negative control passed: VcfHistory's invariants are vacuous")
+    # negative controls: (a) the transcription of the writer before commit d882ab3 (Faithful = FALSE), (b) a writer that
+    # removes old statements only at the records the run supports (ClearAll = FALSE) must violate the invariants
+    for name, kw, invs in [("old_writer", {"faithful": "FALSE"}, ["RoundTrip", "NoStalePhase", "DecodesCleanly", "TagEquivalence"]),
+                           ("clear_only_supported_records", {"clear_all": "FALSE"}, ["NoStalePhase"])]:
+        cfg = tlc.write_cfg(os.path.join(ctx.workdir, f"neg_{name}.cfg"), spec="Spec",
+                            consts=H.hist_consts(2, indel="{2}", never="{3}", **kw), subst={"Inits": "Skips"},
+                            view="NoHist", invariants=invs)
+        r = tlc.model_check("MC_VcfHistory", cfg=cfg, workers=4, timeout=600)
+        rejected = (not r["ok"]) and "is violated" in r["out"]
+        ctx.notes[f"negative_control_{name}_rejected_by_tlc"] = rejected
+        if not rejected:
+            raise tlc.TlcError(f"negative control {name} was not rejected: VcfHistory's invariants are vacuous\n" + r["out"][-1500:])
     return out
 
 
 # ==============================================================================================
 # worlds
-def make_world(rng, ns, nvar, pre="none", paired=0.0, sets=None):
-    """JSON-able tiny world.  Positions are 0-based; VCF POS = pos + 1."""
+def make_world(rng, ns, nvar, pre="none", paired=0.0, sets=None, indels=0.0, decoys=False):
+    """JSON-able tiny world.  Positions are 0-based; VCF POS = pos + 1.
+    indels: probability that a site is an insertion / deletion instead of an SNV.
+    decoys: add records no phase run supports - a multi-ALT heterozygous record and a second record at an already used
+    position - which arrive phased (by another tool) for every sample."""
     from wv import world
     gap = 70
     ref = world.random_reference(rng, gap * nvar + 140)
     vpos = [60 + gap * i for i in range(nvar)]
-    alts = [rng.choice([b for b in "ACGT" if b != ref[p]]) for p in vpos]
+    variants = []
+    for p in vpos:
+        kind = "snv"
+        if rng.random() < indels:
+            kind = rng.choice(["ins", "del"])
+        if kind == "del":
+            ln = next((n for n in (rng.choice([1, 2, 3]), 1) if world.deletion_unshiftable(ref, p, n)), None)
+            v = world.make_variant(rng, ref, p, "del", ln) if ln else world.make_variant(rng, ref, p, "snv")
+        elif kind == "ins":
+            v = world.make_variant(rng, ref, p, "ins", rng.choice([1, 2, 3]))
+        else:
+            v = world.make_variant(rng, ref, p, "snv")
+        variants.append([v.pos, v.ref, v.alt])
     samples = [f"s{k}" for k in range(ns)]
     haps, gts, reads = [], [], []
     for s in range(ns):
@@ -73,7 +96,8 @@ def make_world(rng, ns, nvar, pre="none", paired=0.0, sets=None):
                 gt.append(f"{a}/{a}" if rng.random() < 0.85 else "./.")
         haps.append([h0, h1])
         gts.append(gt)
-        # reads: single reads spanning 2-3 neighbouring sites, paired reads joining i and i+2 around i+1
+        # reads (reference coordinates of their ends): single reads spanning 2-3 neighbouring sites, paired reads joining
+        # i and i+2 around i+1
         n = 0
         forced = rng.randrange(nvar - 1)   # an empty BAM is a usage error of `whatshap phase`, not a scenario
         for i in range(nvar - 1):
@@ -83,32 +107,62 @@ def make_world(rng, ns, nvar, pre="none", paired=0.0, sets=None):
             j = min(nvar - 1, i + (2 if rng.random() < 0.25 else 1))
             for h in (0, 1):
                 for _ in range(2):
-                    reads.append({"s": s, "h": h, "name": f"r{s}_{n}", "segs": [[vpos[i] - rng.randint(5, 25), vpos[j] + rng.randint(5, 25)]]})
+                    reads.append({"s": s, "h": h, "name": f"r{s}_{n}", "segs": [[vpos[i] - rng.randint(6, 25), vpos[j] + rng.randint(8, 25)]]})
                     n += 1
         for i in range(nvar - 2):
             if rng.random() < paired:
                 for h in (0, 1):
                     reads.append({"s": s, "h": h, "name": f"p{s}_{n}", "segs": [[vpos[i] - 20, vpos[i] + 15], [vpos[i + 2] - 15, vpos[i + 2] + 20]]})
                     n += 1
-    # variant file
-    recs = []
+    # variant file; role of every record: var = index of the site, skip = why no run supports it ('' otherwise)
+    kinds = [pre if pre != "mixed" else ("PS" if s % 2 == 0 else "HP") for s in range(ns)]
+    dkinds = [k if k in ("PS", "HP") else rng.choice(["PS", "HP"]) for k in kinds]   # encoding of the decoys' foreign phase
     foreign = vpos[0] + 1
+
+    def fmt_for(ks):
+        return ["GT", "GQ"] + (["PS", "PQ"] if "PS" in ks else []) + (["HP"] if "HP" in ks else [])
+
+    def foreign_call(gt2, kind, i):
+        """a heterozygous call phased by another tool; gt2 = (a, b) alleles"""
+        a, b = gt2
+        d = {"GT": f"{a}/{b}", "GQ": str(20 + i), "PS": ".", "PQ": ".", "HP": "."}
+        if kind == "PS":
+            d.update(GT=f"{a}|{b}", PS=str(foreign), PQ=str(40 + i))
+        elif kind == "HP":
+            x, y = rng.choice([(1, 2), (2, 1)])
+            d.update(HP=f"{foreign}-{x},{foreign}-{y}")
+        return d
+
+    recs, roles = [], []
     for i in range(nvar):
-        kinds = [pre if pre != "mixed" else ("PS" if s % 2 == 0 else "HP") for s in range(ns)]
-        fmt = ["GT", "GQ"] + (["PS", "PQ"] if "PS" in kinds else []) + (["HP"] if "HP" in kinds else [])
+        fmt = fmt_for(kinds)
         calls = []
         for s in range(ns):
             g = gts[s][i]
             d = {"GT": g, "GQ": str(20 + i), "PS": ".", "PQ": ".", "HP": "."}
-            if g in ("0/1", "1/0") and rng.random() < 0.8:
-                if kinds[s] == "PS":
-                    d.update(GT=rng.choice(["0|1", "1|0"]), PS=str(foreign), PQ=str(40 + i))
-                elif kinds[s] == "HP":
-                    a, b = rng.choice([(1, 2), (2, 1)])
-                    d.update(HP=f"{foreign}-{a},{foreign}-{b}")
+            if g in ("0/1", "1/0") and rng.random() < 0.8 and kinds[s] in ("PS", "HP"):
+                d = foreign_call(rng.choice([(0, 1), (1, 0)]), kinds[s], i)
             calls.append([d[k] for k in fmt])
-        recs.append({"chrom": "chr1", "pos": vpos[i] + 1, "id": ".", "ref": ref[vpos[i]], "alt": alts[i], "qual": 50,
+        recs.append({"chrom": "chr1", "pos": variants[i][0] + 1, "id": ".", "ref": variants[i][1], "alt": variants[i][2], "qual": 50,
                      "filter": "PASS", "info": ".", "fmt": fmt, "calls": calls})
+        roles.append({"var": i, "skip": "", "indel": len(variants[i][1]) != 1 or len(variants[i][2]) != 1})
+        # a second record at the same position, phased by another tool (only behind SNVs: behind an indel it would become
+        # the record that --only-snvs runs keep)
+        if decoys and not roles[-1]["indel"] and rng.random() < 0.4:
+            fmt = fmt_for(dkinds)
+            alt2 = rng.choice([b for b in "ACGT" if b not in (variants[i][1][0], variants[i][2][0])])
+            calls = [[foreign_call(rng.choice([(0, 1), (1, 0)]), dkinds[s], i)[k] for k in fmt] for s in range(ns)]
+            recs.append({"chrom": "chr1", "pos": variants[i][0] + 1, "id": "dup", "ref": variants[i][1][0], "alt": alt2, "qual": 50,
+                         "filter": "PASS", "info": ".", "fmt": fmt, "calls": calls})
+            roles.append({"var": -1, "skip": "duplicate position", "indel": False})
+        if decoys and i < nvar - 1 and rng.random() < 0.5:   # a multi-ALT heterozygous record between two sites
+            p = vpos[i] + 35
+            fmt = fmt_for(dkinds)
+            alts = rng.sample([b for b in "ACGT" if b != ref[p]], 2)
+            calls = [[foreign_call(rng.choice([(1, 2), (2, 1), (0, 2)]), dkinds[s], i)[k] for k in fmt] for s in range(ns)]
+            recs.append({"chrom": "chr1", "pos": p + 1, "id": "multi", "ref": ref[p], "alt": ",".join(alts), "qual": 50,
+                         "filter": "PASS", "info": ".", "fmt": fmt, "calls": calls})
+            roles.append({"var": -1, "skip": "multi-ALT", "indel": False})
     # the phased VCF offered as phase input: a partition of each sample's heterozygous sites into sets
     truth = []
     for s in range(ns):
@@ -132,16 +186,17 @@ def make_world(rng, ns, nvar, pre="none", paired=0.0, sets=None):
                 a, b = b, a
             t[i] = [vpos[members[0]] + 1, [a, b]]
         truth.append(t)
-    return {"ref": ref, "vpos": vpos, "alts": alts, "samples": samples, "haps": haps, "reads": reads, "recs": recs, "truth": truth}
+    return {"ref": ref, "vpos": vpos, "variants": variants, "samples": samples, "haps": haps, "reads": reads, "recs": recs,
+            "roles": roles, "truth": truth}
 
 
 def truth_records(w, enc):
-    """records of the phase-input VCF g; enc = PS or HP encoding of the same statements"""
+    """records of the phase-input VCF g (same record list as the variant file); enc = PS or HP encoding of the statements"""
     out = []
-    for i, rec in enumerate(w["recs"]):
+    for rec, role in zip(w["recs"], w["roles"]):
         calls = []
         for s in range(len(w["samples"])):
-            t = w["truth"][s][i]
+            t = w["truth"][s][role["var"]] if role["var"] >= 0 else None
             g = rec["calls"][s][0].replace("|", "/")
             if t is None:
                 calls.append([g, "."])
@@ -158,7 +213,7 @@ def materialise(w, tmp):
     from wv import world
     L = len(w["ref"])
     fasta = world.write_fasta(os.path.join(tmp, "ref.fa"), {"chr1": w["ref"]})
-    variants = [world.Variant(p, w["ref"][p], a) for p, a in zip(w["vpos"], w["alts"])]
+    variants = [world.Variant(p, r, a) for p, r, a in w["variants"]]
     hap = {(s, h): world.Haplotype(w["ref"], variants, w["haps"][s][h]) for s in range(len(w["samples"])) for h in (0, 1)}
     brecs = []
     for r in w["reads"]:
@@ -166,8 +221,9 @@ def materialise(w, tmp):
         segs = []
         for a, b in r["segs"]:
             a, b = max(0, a), min(L, b)
-            pos0, cig, seq = hp.read(a, b)
-            assert seq == hp.seq[a:b] and pos0 == a
+            hs, he = hp.ref_to_hap(a), hp.ref_to_hap(b)
+            pos0, cig, seq = hp.read(hs, he)
+            assert seq == hp.seq[hs:he] and pos0 == a and world.cigar_reflen(cig) == b - a, (a, b, pos0, cig)
             segs.append((pos0, world.cigar_str(cig), seq))
         if len(segs) == 1:
             brecs.append({"name": r["name"], "flag": 0, "ref": 0, "pos": segs[0][0], "cigar": segs[0][1], "seq": segs[0][2],
@@ -199,6 +255,7 @@ def _with_inputs(rng, hist, vcf_prob=0.35):
         if o["op"] == "P":
             r = rng.random()
             o["inp"] = "bam" if r > vcf_prob else ("vcf:PS" if r > vcf_prob / 2 else "vcf:HP")
+            o.setdefault("snvs", False)
         out.append(o)
     return out
 
@@ -206,35 +263,43 @@ def _with_inputs(rng, hist, vcf_prob=0.35):
 def scenarios(ctx):
     q, rng = ctx.quick, ctx.rng
     scs = []
-    # ---- all command histories up to length 3 / 4 (TLC, VcfHistory) on seeded worlds ----
-    hs = [h for h in H.emit_histories(ctx, 2, 3 if q else 4, inits="Small") if any(o["op"] == "P" for o in h)]
+    # ---- all command histories (TLC, VcfHistory; Phase action with targets, tag and --only-snvs) on seeded worlds with
+    #      indels and records no run supports: 2 samples up to length 2 / 3, 1 sample up to length 3 / 4 ----
+    hs = []
+    for ns, depth in ((2, 2 if q else 3), (1, 3 if q else 4)):
+        hs += [(ns, h) for h in H.emit_histories(ctx, ns, depth, inits="Small" if ns == 2 else "One", snvs="{FALSE, TRUE}")
+               if any(o["op"] == "P" for o in h)]
     ctx.notes["tlc_emitted_histories_with_phase"] = len(hs)
-    for i, h in enumerate(hs):
+    ctx.notes["tlc_emitted_histories_with_only_snvs_step"] = sum(1 for _, h in hs if any(o.get("snvs") for o in h))
+    for i, (ns, h) in enumerate(hs):
         pre = ["none", "PS", "HP", "mixed"][i % 4]
-        w = make_world(rng, 2, rng.randint(3, 5), pre=pre, paired=0.3 if i % 3 == 0 else 0.0)
+        w = make_world(rng, ns, rng.randint(3, 5), pre=pre, paired=0.3 if i % 3 == 0 else 0.0, indels=0.4, decoys=i % 5 != 0)
         scs.append({"kind": "hist", "pre": pre, "world": w, "hist": _with_inputs(rng, h)})
     # ---- phased VCF as the only phase input: 1..7 interleaved sets, both encodings of g, both tags ----
     n = 0
     for k in range(1, 8):
         for rep in range(2 if q else 20):
-            w = make_world(rng, 1, 2 * k + rng.randint(0, 2), pre=["none", "PS", "HP"][rep % 3], sets=k)
+            pre = ["none", "PS", "HP"][rep % 3]
+            w = make_world(rng, 1, 2 * k + rng.randint(0, 2), pre=pre, sets=k, indels=0.2 if rep % 4 == 3 else 0.0, decoys=rep % 4 == 1)
             for enc in ("PS", "HP"):
-                scs.append({"kind": f"interleaved{k}", "pre": w and ["none", "PS", "HP"][rep % 3], "world": w,
-                            "hist": [{"op": "P", "tag": "PS" if rep % 2 else "HP", "T": [1], "inp": "vcf:" + enc}]})
+                scs.append({"kind": f"interleaved{k}", "pre": pre, "world": w,
+                            "hist": [{"op": "P", "tag": "PS" if rep % 2 else "HP", "T": [1], "inp": "vcf:" + enc,
+                                      "snvs": rep % 8 == 7}]})
                 n += 1
     ctx.notes["interleaved_set_scenarios"] = n
     # ---- seeded random: more samples, more sites, longer histories ----
     nr = 150 if q else 8000
     for i in range(nr):
         ns = rng.choice([1, 2, 2, 3])
-        w = make_world(rng, ns, rng.randint(3, 8), pre=rng.choice(["none", "PS", "HP", "mixed"]), paired=rng.choice([0, 0, 0.4]))
+        w = make_world(rng, ns, rng.randint(3, 8), pre=rng.choice(["none", "PS", "HP", "mixed"]), paired=rng.choice([0, 0, 0.4]),
+                       indels=rng.choice([0, 0.3, 0.6]), decoys=rng.random() < 0.6)
         hist = []
         for _ in range(rng.randint(1, 5)):
             if rng.random() < 0.2:
                 hist.append({"op": "U", "tag": "", "T": []})
             else:
                 T = sorted(rng.sample(range(1, ns + 1), rng.randint(1, ns)))
-                hist.append({"op": "P", "tag": rng.choice(["PS", "HP"]), "T": T})
+                hist.append({"op": "P", "tag": rng.choice(["PS", "HP"]), "T": T, "snvs": rng.random() < 0.3})
         scs.append({"kind": "random", "pre": "", "world": w, "hist": _with_inputs(rng, hist)})
     ctx.notes["random_histories"] = nr
     return scs
@@ -242,19 +307,20 @@ def scenarios(ctx):
 
 # ==============================================================================================
 # driving the real commands
-def decode_real(path, samples, positions):
-    """What whatshap's own reader decodes: per sample, per record a statement or []."""
+def decode_real(path, samples, primary):
+    """What whatshap's own reader decodes: per sample, per record a statement or [].
+    primary: 0-based position -> index of the record the reader keeps for it (first biallelic record at that position)."""
     from whatshap.vcf import VcfReader
+    nrec = primary["n"]
     try:
-        ph = [[[] for _ in positions] for _ in samples]
-        idx = {p: i for i, p in enumerate(positions)}
+        ph = [[[] for _ in range(nrec)] for _ in samples]
         with VcfReader(path, phases=True) as r:
             for table in r:
                 for s, name in enumerate(samples):
                     for v, p in zip(table.variants, table.phases_of(name)):
-                        if p is not None and v.position in idx:
-                            ph[s][idx[v.position]] = {"block": -1 if p.block_id is None else int(p.block_id),
-                                                      "al": [-1 if a is None else int(a) for a in p.phase]}
+                        if p is not None and v.position in primary:
+                            ph[s][primary[v.position]] = {"block": -1 if p.block_id is None else int(p.block_id),
+                                                          "al": [-1 if a is None else int(a) for a in p.phase]}
         return {"exc": "", "ph": ph}
     except Exception as e:
         return {"exc": type(e).__name__, "ph": []}
@@ -271,12 +337,17 @@ def drive(sc):
 
 def _drive(sc, tmp):
     w = sc["world"]
-    samples, positions = w["samples"], w["vpos"]
+    samples, roles = w["samples"], w["roles"]
+    nrec = len(w["recs"])
+    primary = {"n": nrec}
+    for i, (rec, role) in enumerate(zip(w["recs"], roles)):
+        if role["var"] >= 0:
+            primary[rec["pos"] - 1] = i
     fasta, bam, f0, gpaths = materialise(w, tmp)
     paths = {0: f0}
     proj0, _, names = H.project_vcf(f0)
-    assert names == samples
-    evs = [{"ev": "Load", "id": 0, "file": proj0, "dec": decode_real(f0, samples, positions)}]
+    assert names == samples and len(proj0["recs"]) == nrec
+    evs = [{"ev": "Load", "id": 0, "file": proj0, "dec": decode_real(f0, samples, primary)}]
     gproj = {enc: H.project_vcf(p)[0] for enc, p in gpaths.items()}
     cur, nxt = 0, 1
 
@@ -287,7 +358,7 @@ def _drive(sc, tmp):
         paths[d] = os.path.join(tmp, f"f{d}.vcf")
         return d
 
-    def phase(src, tag, T, inp):
+    def phase(src, tag, T, inp, snvs):
         dst = new()
         P = {}
 
@@ -303,16 +374,27 @@ def _drive(sc, tmp):
                 P[name] = d
         tnames = [samples[t - 1] for t in T]
         if inp == "bam":
-            exc = H.run_phase_file(paths[src], paths[dst], tag, tnames, [bam], reference=fasta, writer_hook=hook)
+            exc = H.run_phase_file(paths[src], paths[dst], tag, tnames, [bam], reference=fasta, writer_hook=hook, only_snvs=snvs)
         else:
-            exc = H.run_phase_file(paths[src], paths[dst], tag, tnames, [gpaths[inp[4:]]], reference=False, writer_hook=hook)
-        e = {"ev": "Phase", "src": src, "dst": dst, "tag": tag, "targets": list(T), "inp": inp[:3], "key": inp, "exc": exc,
+            exc = H.run_phase_file(paths[src], paths[dst], tag, tnames, [gpaths[inp[4:]]], reference=False, writer_hook=hook,
+                                   only_snvs=snvs)
+        # records this run does not support (by construction of the world, not by asking whatshap)
+        skip = [bool(r["skip"]) or (snvs and r["indel"]) for r in roles]
+        e = {"ev": "Phase", "src": src, "dst": dst, "tag": tag, "targets": list(T), "inp": inp[:3],
+             "key": inp + ("+only-snvs" if snvs else ""), "snvs": bool(snvs), "skip": skip, "exc": exc,
              "P": [], "out": {"hdr": [], "recs": []}, "dec": {"exc": "", "ph": []}, "g": {"hdr": [], "recs": []}}
         if not exc:
-            e["P"] = [[P.get(n, {}).get(p, []) for p in positions] if (k + 1) in T else [[] for _ in positions]
-                      for k, n in enumerate(samples)]
+            rows = []
+            for k, n in enumerate(samples):
+                row = [[] for _ in range(nrec)]
+                if (k + 1) in T:
+                    for p0, st in P.get(n, {}).items():
+                        if p0 in primary:
+                            row[primary[p0]] = st
+                rows.append(row)
+            e["P"] = rows
             e["out"] = H.project_vcf(paths[dst])[0]
-            e["dec"] = decode_real(paths[dst], samples, positions)
+            e["dec"] = decode_real(paths[dst], samples, primary)
             if inp != "bam":
                 e["g"] = gproj[inp[4:]]
         evs.append(e)
@@ -325,13 +407,13 @@ def _drive(sc, tmp):
             e = {"ev": "Unphase", "src": cur, "dst": dst, "exc": exc, "out": {"hdr": [], "recs": []}, "dec": {"exc": "", "ph": []}}
             if not exc:
                 e["out"] = H.project_vcf(paths[dst])[0]
-                e["dec"] = decode_real(paths[dst], samples, positions)
+                e["dec"] = decode_real(paths[dst], samples, primary)
             evs.append(e)
             cur = None if exc else dst
         else:
             other = "HP" if op["tag"] == "PS" else "PS"
-            d1 = phase(cur, op["tag"], op["T"], op["inp"])
-            phase(cur, other, op["T"], op["inp"])       # the twin run with the other tag on the same input
+            d1 = phase(cur, op["tag"], op["T"], op["inp"], bool(op.get("snvs")))
+            phase(cur, other, op["T"], op["inp"], bool(op.get("snvs")))       # the twin run with the other tag on the same input
             cur = d1
         if cur is None:
             break
@@ -369,6 +451,8 @@ def nontrivial(sc, events):
             if not any(v >= 2 for v in blocks.values()):
                 continue
             calls = [r["calls"][s - 1] for r in src["recs"]]
+            if any(k and (_dec("PS", c) or _dec("HP", c)) for k, c in zip(e.get("skip", []), calls)):
+                return True    # an old statement sat at a record this run skips
             if any(c["ph"] or c["hp"] or (len(c["gt"]) == 2 and c["gt"][0] > c["gt"][1] >= 0) for c in calls):
                 return True
             if e["inp"] == "vcf" and len(blocks) >= 2:
@@ -425,8 +509,12 @@ def signature(sc, events, clause):
             for s in e["targets"]:
                 for i in range(n):
                     c, p = out["recs"][i]["calls"][s - 1], e["P"][s - 1][i]
+                    skipped = " at a record the run skips (multi-ALT / duplicate position / non-SNV under --only-snvs)" \
+                        if e.get("skip") and e["skip"][i] else ""
                     if _dec(other, c) and _dec(other, c) != p:
-                        return f"phase --tag {e['tag']} leaves the {other} statement of a target sample in place"
+                        return f"phase --tag {e['tag']} leaves the {other} statement of a target sample in place" + skipped
+                    if not p and _dec(e["tag"], c) and skipped:
+                        return f"phase --tag {e['tag']} keeps an old {e['tag']} statement of a target sample" + skipped
                     if not p and _dec(e["tag"], c):
                         anyp = any(e["P"][t - 1][i] for t in e["targets"])
                         return (f"phase --tag {e['tag']} keeps an old {e['tag']} statement of a target sample at a record where "
@@ -474,8 +562,10 @@ MANIFEST = {
             "the encoders the conventions prescribe; VcfHistory.tla is the state machine of commands phase(tag, targets, any phasing) / "
             "unphase whose invariants RoundTrip, NoStalePhase, DecodesCleanly, TagEquivalence TLC checks over all histories of a small "
             "file (and which TLC refutes for a transcription of the pinned writer: negative control). TLC emits every command history "
-            "up to length 3-4; the driver replays each on a real tiny world (BAM with error-free single/paired reads, FASTA, variant "
-            "file with unsorted/missing GTs and foreign PS/HP/PQ phase, phased VCF with interleaved sets as alternative phase input), "
+            "(Phase action parameterised by tag, targets and --only-snvs; records a run skips - indels under --only-snvs, multi-ALT, "
+            "duplicate positions - are part of the model); the driver replays each on a real tiny world (BAM with error-free "
+            "single/paired reads over SNVs and indels, FASTA, variant file with unsorted/missing GTs, foreign PS/HP/PQ phase and phased "
+            "multi-ALT / duplicate-position records, phased VCF with interleaved sets as alternative phase input), "
             "running every phase step with both tags through run_whatshap, recording the phasing handed to PhasedVcfWriter.write, the "
             "raw GT/PS/HP text of the output and what VcfReader(phases=True) decodes. TLC judges every step: RoundTrip, TagEquivalence, "
             "NoStalePhase, DecodesCleanly, VcfReproduces.",
